@@ -110,24 +110,30 @@ def mNumber (s : List Char) : Match :=
 
 def isLetter (c : Char) : Bool := c.isAlpha
 
+/-- an optional leading `$` -/
+def dropDollar (w : List Char) : List Char :=
+  match w with
+  | '$' :: r => r
+  | r => r
+
 /-- `$?[A-Z]{1,3}$?[1-9][0-9]*` exactly; returns the name without `$`, upper-cased -/
 def cellName? (w : List Char) : Option (List Char) :=
-  let w1 := match w with | '$' :: r => r | r => r
+  let w1 := dropDollar w
   let letters := w1.takeWhile isLetter
   let r1 := w1.dropWhile isLetter
-  let r2 := match r1 with | '$' :: r => r | r => r
+  let r2 := dropDollar r1
   if letters.length ≥ 1 ∧ letters.length ≤ 3 ∧ !r2.isEmpty ∧ r2.all Char.isDigit ∧ r2.head? ≠ some '0' then
     some (letters.map Char.toUpper ++ r2)
   else none
 
 /-- `$?[A-Z]{1,3}` exactly -/
 def colName? (w : List Char) : Option (List Char) :=
-  let w1 := match w with | '$' :: r => r | r => r
+  let w1 := dropDollar w
   if w1.length ≥ 1 ∧ w1.length ≤ 3 ∧ w1.all isLetter then some (w1.map Char.toUpper) else none
 
 /-- `$?[1-9][0-9]*` exactly -/
 def rowName? (w : List Char) : Option (List Char) :=
-  let w1 := match w with | '$' :: r => r | r => r
+  let w1 := dropDollar w
   if !w1.isEmpty ∧ w1.all Char.isDigit ∧ w1.head? ≠ some '0' then some w1 else none
 
 /-- `[A-Za-z_][A-Za-z0-9_.]*` -/
@@ -224,20 +230,23 @@ def processRun (run : List Char) : Option String :=
     | _ => none
 
 /-- first alternative of `OperatorToken._re`: `\s*([<>]=|<>|[*/^&<>=])(?=\s*[+-])` -/
+def opCand (t : List Char) : Option (List Char × List Char) :=
+  match t with
+  | '<' :: '=' :: r => some (['<', '='], r)
+  | '>' :: '=' :: r => some (['>', '='], r)
+  | '<' :: '>' :: r => some (['<', '>'], r)
+  | c :: r => if c == '*' || c == '/' || c == '^' || c == '&' || c == '<' || c == '>' || c == '=' then some ([c], r) else none
+  | [] => none
+
+/-- the look-ahead `(?=\s*[+-])` -/
+def signAhead (r : List Char) : Bool :=
+  match skipWs r with
+  | c :: _ => c == '+' || c == '-'
+  | [] => false
+
 def opBeforeSign (s : List Char) : Option (List Char × List Char) :=
-  let t := skipWs s
-  let cand : Option (List Char × List Char) :=
-    match t with
-    | '<' :: '=' :: r => some (['<', '='], r)
-    | '>' :: '=' :: r => some (['>', '='], r)
-    | '<' :: '>' :: r => some (['<', '>'], r)
-    | c :: r => if c == '*' || c == '/' || c == '^' || c == '&' || c == '<' || c == '>' || c == '=' then some ([c], r) else none
-    | [] => none
-  match cand with
-  | some (m, r) =>
-    (match skipWs r with
-     | c :: _ => if c == '+' || c == '-' then some (m, r) else none
-     | [] => none)
+  match opCand (skipWs s) with
+  | some (m, r) => if signAhead r then some (m, r) else none
   | none => none
 
 /-- `OperatorToken._re` and `process`; `none` = no match or `TokenError` (empty attributes) -/
